@@ -29,8 +29,8 @@ CHECKS = {
         "require_ops": ["strict.tensor", "lax.tensor", "law.tensor_assoc", "lax.tensor3", "hyper.coproduct"],
     },
     "C03": {
-        "quick": {"gen": [G("MC_C03", "MC_C03_quick.cfg")]},
-        "thorough": {"gen": [G("MC_C03", "MC_C03_thorough.cfg"), G("MC_C03", "MC_C03_thorough_b.cfg")], "drive": [D("strict", 30000)]},
+        "quick": {"gen": [G("MC_C03", "MC_C03_quick.cfg")], "drive": [D("glue", 2000, only=["law."]), D("strict", 1500, only=["law."])]},
+        "thorough": {"gen": [G("MC_C03", "MC_C03_thorough.cfg"), G("MC_C03", "MC_C03_thorough_b.cfg")], "drive": [D("strict", 30000), D("glue", 40000, only=["law."])]},
         "require_ops": ["law.assoc", "law.unit", "law.interchange", "law.twist_natural", "law.twist_inverse", "law.hexagon"],
     },
     "C04": {
